@@ -80,6 +80,39 @@ var defaultQuantiles = []MetricObjective{
 	{Quantile: 0.99, Error: 0.001},
 }
 
+// validateBuckets rejects bucket lists that the client library refuses when the
+// first series of a histogram is created (it panics there).
+func validateBuckets(buckets []float64) error {
+	for i := 1; i < len(buckets); i++ {
+		if buckets[i-1] >= buckets[i] {
+			return fmt.Errorf("histogram buckets must be in increasing order: %v", buckets)
+		}
+	}
+	return nil
+}
+
+// validateSummaryOptions rejects summary options that make the client library
+// panic (negative max_age, quantile ranks outside [0, 1]) or spin forever (a
+// max_age so small that max_age / age_buckets is zero).
+func validateSummaryOptions(o SummaryOptions) error {
+	for _, q := range o.Quantiles {
+		if !(q.Quantile >= 0 && q.Quantile <= 1) {
+			return fmt.Errorf("quantile %v is not between 0 and 1", q.Quantile)
+		}
+	}
+	if o.MaxAge < 0 {
+		return fmt.Errorf("max_age %v is negative", o.MaxAge)
+	}
+	ageBuckets := o.AgeBuckets
+	if ageBuckets == 0 {
+		ageBuckets = prometheus.DefAgeBuckets
+	}
+	if o.MaxAge != 0 && o.MaxAge/time.Duration(ageBuckets) == 0 {
+		return fmt.Errorf("max_age %v is too small for %d age buckets", o.MaxAge, ageBuckets)
+	}
+	return nil
+}
+
 func (m *MetricMapper) InitFromYAMLString(fileContents string) error {
 	var n MetricMapper
 
@@ -103,6 +136,13 @@ func (m *MetricMapper) InitFromYAMLString(fileContents string) error {
 
 	if n.Defaults.MatchType == MatchTypeDefault {
 		n.Defaults.MatchType = MatchTypeGlob
+	}
+
+	if err := validateBuckets(n.Defaults.HistogramOptions.Buckets); err != nil {
+		return err
+	}
+	if err := validateSummaryOptions(n.Defaults.SummaryOptions); err != nil {
+		return err
 	}
 
 	remainingMappingsCount := len(n.Mappings)
@@ -230,6 +270,17 @@ func (m *MetricMapper) InitFromYAMLString(fileContents string) error {
 			}
 			if currentMapping.SummaryOptions.BufCap == 0 {
 				currentMapping.SummaryOptions.BufCap = n.Defaults.SummaryOptions.BufCap
+			}
+		}
+
+		if currentMapping.HistogramOptions != nil {
+			if err := validateBuckets(currentMapping.HistogramOptions.Buckets); err != nil {
+				return fmt.Errorf("%w in %s", err, currentMapping.Match)
+			}
+		}
+		if currentMapping.SummaryOptions != nil {
+			if err := validateSummaryOptions(*currentMapping.SummaryOptions); err != nil {
+				return fmt.Errorf("%w in %s", err, currentMapping.Match)
 			}
 		}
 
